@@ -748,6 +748,49 @@ pub fn purity(ctx: &GenCtx, rng: &mut Rng, run: u64) -> Plan {
     plan
 }
 
+/// purity-proc: one long history per fresh child process: thousands of library calls on a few cheap keys,
+/// every observed call repeated later in the same process.  Anything the library remembers across calls
+/// (statics, thread-locals, counters, caches) evolves as a pure function of the plan, so a dependence on it
+/// shows up as a mismatch and replays exactly.
+pub fn purity_proc(ctx: &GenCtx, rng: &mut Rng, _run: u64) -> Plan {
+    let mut plan = empty_plan();
+    let nkeys = rng.range(2, 4) as usize;
+    let h = cheap_h();
+    for k in 0..nkeys {
+        let hash = if k > 0 && rng.chance(1, 2) { plan.keys[0].hash } else { pick_plain_hash(rng) };
+        let seed = if k > 0 && hash == plan.keys[0].hash && rng.chance(1, 2) { plan.keys[0].seed.clone() } else { rng.bytes(hash.n()) };
+        let l = rng.range(1, 2.min(crate::BUILD_MAX_LEVELS as u64)) as usize;
+        let params: Vec<(u32, u32)> = (0..l).map(|i| ((*rng.pick(&[2u32, 4, 8])).max(crate::BUILD_MIN_W[i]), h.min(crate::BUILD_TREE_HEIGHTS[i]))).collect();
+        plan.keys.push(KeyCfg { hash, params, seed });
+        plan.procs.push(k);
+        plan.ops.push(Op::Keygen { key: k, aux: None });
+    }
+    let calls: u64 = if ctx.quick { 900 } else { 4000 };
+    let mut observed: Vec<usize> = (0..nkeys).collect();
+    for i in 0..calls {
+        let k = rng.below(nkeys as u64) as usize;
+        let leaves = 1u64 << plan.keys[k].params.iter().map(|p| p.1).sum::<u32>();
+        if i % 3 == 0 {
+            plan.ops.push(Op::Inject { key: k, counter: rng.below(leaves) });
+        }
+        observed.push(plan.ops.len());
+        plan.ops.push(Op::Sign { proc: k, msg: Msg { len: rng.below(40) as usize, cseed: rng.next_u64() }, api: *rng.pick(&[Api::Fn, Api::Obj]), cb: Cb::Accept, aux: None });
+        if rng.chance(1, 4) {
+            let o = *rng.pick(&observed);
+            plan.ops.push(Op::Recheck { op_ref: o, ctx: *rng.pick(&[Context::Again, Context::OtherApi, Context::WithAux]) });
+        }
+        if rng.chance(1, 50) {
+            observed.push(plan.ops.len());
+            plan.ops.push(Op::Keygen { key: k, aux: None });
+        }
+    }
+    for &o in observed.iter() {
+        plan.ops.push(Op::Recheck { op_ref: o, ctx: Context::Again });
+    }
+    plan.note = format!("{} keys, {} calls in one fresh process", nkeys, plan.ops.len());
+    plan
+}
+
 pub const ARITH_HEIGHTS: [u8; 5] = [5, 10, 15, 20, 25];
 
 /// all height tuples of length 1..8 over {5,10,15,20,25}: 5 + 25 + ... + 5^8 = 488 280
